@@ -22,9 +22,11 @@ def configs():
     return out
 
 
-def scenarios(flavour, n, max_edges, methods):
+def scenarios(flavour, n, max_edges, methods, only=None):
     for seq in canon_sequences(n, max_edges):
         for cfg in configs():
+            if only and not only(cfg):
+                continue
             step, a, prio, mode = cfg
             symvals = (a == 'pfs')
             nodes = [[i % n, {'s': f'n{i % n}'} if symvals else 100 + (i % n)] for i in range(2 * n)]
@@ -106,12 +108,15 @@ def run(prop, tier, seed):
         items += list(scenarios(fl, 3, m_f, ('filter',)))
         items += list(scenarios(fl, 3, m_e, ('foreach',)))
         items += list(scenarios(fl, 3, m_f, ('none',)))
+        # priority-first runs only differ from each other once two frontier nodes both lead on: 4 edges, symbolic node values
+        items += [it for it in scenarios(fl, 3, m_e + 1, ('none',), only=lambda c: c[1] == 'pfs') if len(it[1]['meta']['seq']) == m_e + 1
+                  and (tier != 'quick' or len(set(map(tuple, it[1]['meta']['seq']))) == m_e + 1)]      # quick: no parallel edges in this family
     cells = sorted({str(c) for c, _ in items})
     import kani_engine
     kr = kani_engine.KaniRun('edge_reverse_and_order')       # engine B: Edge::reverse on the compiled code
     return scenario_check(
         prop, tier, seed, items, evaluate, sig_of,
-        bounds={'nodes': 3, 'max_edges_filter': m_f, 'max_edges_for_each': m_e, 'configurations': len(configs()),
+        bounds={'nodes': 3, 'max_edges_filter': m_f, 'max_edges_for_each': m_e, 'configurations': len(configs()), 'max_edges_pfs_plain': m_e + 1,
                 'symbolic': 'edge values, node values (pfs), filter F shared by both runs',
                 'outside': 'larger graphs; the 14 nominal configurations the API does not offer'},
         assumptions=['std models of engine A', 'the in-list of a node in G lists its edges in the order the out-list of the same node lists them in G^R (follows from C01/C03)',
